@@ -296,6 +296,7 @@ _PURE_BUILTINS: dict[str, Any] = {
     'len': len, 'min': min, 'max': max, 'sorted': sorted, 'range': range, 'tuple': tuple, 'list': list, 'zip': zip,
     'enumerate': enumerate, 'abs': abs, 'sum': sum, 'any': any, 'all': all, 'reversed': reversed, 'int': int, 'set': set,
     'frozenset': frozenset, 'dict': dict, 'bool': bool, 'divmod': divmod, 'str': str, 'repr': repr, 'slice': slice, 'next': next, 'iter': iter,
+    'ord': ord, 'chr': chr,
 }  # fmt: skip
 
 _TYPE_NAMES = {'int': int, 'tuple': tuple, 'list': list, 'str': str, 'bool': bool, 'float': float, 'range': range, 'dict': dict, 'set': set}
@@ -626,11 +627,17 @@ class Interp:
             return Ref(v.path + '.' + name)
         if isinstance(v, (tuple, list, dict, set, frozenset, Counter, str, range)):
             if name in ('append', 'extend', 'insert', 'pop', 'remove', 'sort', 'reverse', 'clear', 'update', 'setdefault', 'add', 'discard',
-                        'index', 'count', 'items', 'keys', 'values', 'get', 'copy', 'most_common', 'union', 'intersection', 'difference', 'join'):
+                        'index', 'count', 'items', 'keys', 'values', 'get', 'copy', 'most_common', 'union', 'intersection', 'difference', 'join',
+                        'symmetric_difference', 'issubset', 'issuperset', 'isdisjoint') and hasattr(v, name):
+                return getattr(v, name)
+            if isinstance(v, str) and name in ('split', 'rsplit', 'replace', 'find', 'rfind', 'rindex', 'translate', 'startswith', 'endswith', 'strip', 'lstrip', 'rstrip', 'partition',
+                                               'rpartition', 'isalpha', 'isdigit', 'lower', 'upper', 'removeprefix', 'removesuffix', 'format', 'splitlines', 'isidentifier', 'isascii'):
                 return getattr(v, name)
             return UNK
         if isinstance(v, slice) and name in ('start', 'stop', 'step'):
             return getattr(v, name)
+        if v is str and name in ('maketrans', 'join'):
+            return getattr(str, name)
         return UNK
 
     def _record_fields(self, cls: ClassInfo) -> list[str] | None:
@@ -845,6 +852,10 @@ class Interp:
                 return
             if isinstance(value, Obj) and '__record_fields__' in value.attrs:
                 value = self.iterate(value)
+            if isinstance(value, (set, frozenset, dict, str)) and _concrete(value):
+                if isinstance(value, (set, frozenset)) and len(value) > 1:
+                    raise Undecided('unpacking a set of several elements (order not defined)')
+                value = list(value)
             if not isinstance(value, (tuple, list, range)):
                 raise Undecided('unpacking an abstract value')
             vals = list(value)
@@ -1047,7 +1058,16 @@ class Interp:
         return out
 
     def _e_JoinedStr(self, e, env):
-        return '<text>'
+        out = []
+        for v in e.values:
+            if isinstance(v, ast.Constant):
+                out.append(str(v.value))
+            elif isinstance(v, ast.FormattedValue):
+                x = self.eval(v.value, env)
+                if not _concrete(x) or v.format_spec is not None:
+                    return '<text>'
+                out.append(repr(x) if v.conversion == ord('r') else str(x))
+        return ''.join(out)
 
     def _e_Slice(self, e, env):
         return slice(*(self.eval(x, env) if x is not None else None for x in (e.lower, e.upper, e.step)))
